@@ -192,13 +192,18 @@ Open Scope string_scope.
     forallb (fun q => match dy_pair (q_max q) (q_min q), bit_to_vid_idx (q_vz q) (q_idx q) outV (q_max q) (q_min q) with
                       | Some (dmn, dmx), Some (hi, lo) => band_rev (q_vz q) (q_idx q) outV dmn dmx lo hi
                       | _, _ => false end) l.
-  Definition d_from_qv (oracle : oracle_t) (args : list val) (obs : val) : verdict :=
+  (* sid = true: ConvertQuadkeysAndVerticalIDsToSpatialIDs, arguments [items; outputZoom], IDs in the notation z/f/x/y *)
+  Definition to_sids (sid : bool) (l : list string) : option (list string) := if sid then map_opt eid_to_sid_str l else Some l.
+  Definition d_from_qv (sid : bool) (oracle : oracle_t) (args : list val) (obs : val) : verdict :=
     if is_refusal obs then bad_case else
-    match args with
-    | [VL lv; VZ outH; VZ outV] =>
+    match (match args, sid with
+           | [VL lv; VZ outH; VZ outV], false => Some (lv, outH, outV)
+           | [VL lv; VZ z], true => Some (lv, z, z)
+           | _, _ => None end) with
+    | Some (lv, outH, outV) =>
         match all_opt (map as_qvid lv) with
         | Some l =>
-            match qv_to_ext (o_hids oracle) l outH outV with
+            match (if sid then qv_to_sid (o_hids oracle) l outH else qv_to_ext (o_hids oracle) l outH outV) with
             | None => bad_case
             | Some m =>
                 let os := if is_err obs then None else as_LS obs in
@@ -210,8 +215,9 @@ Open Scope string_scope.
                 if existsb (fun q => (q_max q <? q_min q)%float) l then mkv corr (is_err obs) "-" mval
                 else match m, os with
                      | Ok a, Some o =>
-                         match ref_ids oracle l outH outV with
+                         match (match ref_ids oracle l outH outV with Some r => to_sids sid r | None => None end) with
                          | Some r =>
+                             (* the observed set must be the WHOLE reference run of every element: both bounds of the cell's interval *)
                              let prop := same_strings o r in
                              mkv corr prop (if corr && negb prop && band_qvids l outV then "bit_rounding" else "-") mval
                          | None => mkv corr true "-" mval     (* equal heights or a range outside the claimed domain *)
@@ -222,10 +228,10 @@ Open Scope string_scope.
             end
         | None => bad_case
         end
-    | _ => bad_case
+    | None => bad_case
     end.
 
 Definition table_C17 : table :=
   [("calcBitIndex", fun _ => d_calc); ("convertVerticallIDToBit", fun _ => d_vid_to_bit); ("convertBitToVerticalID", fun _ => d_bit_to_vid);
    ("ConvertExtendedSpatialIDsToQuadkeysAndVerticalIDs", d_to_qv false); ("ConvertSpatialIDsToQuadkeysAndVerticalIDs", d_to_qv true);
-   ("ConvertQuadkeysAndVerticalIDsToExtendedSpatialIDs", d_from_qv)].
+   ("ConvertQuadkeysAndVerticalIDsToExtendedSpatialIDs", d_from_qv false); ("ConvertQuadkeysAndVerticalIDsToSpatialIDs", d_from_qv true)].
